@@ -1,0 +1,36 @@
+//go:build verif
+
+package actions
+
+// Contracts for gocv (contract-based deductive verification, /verif).
+// Which actions become visible to peers and therefore require the write-ahead log to be
+// flushed first: the three broadcasts and the commit.
+
+//@ func (*BroadcastProposal).RequiresWALFlush
+//@   props C13
+//@   inline
+//@   ensures visible: result
+//@ func (*BroadcastPrevote).RequiresWALFlush
+//@   props C13
+//@   inline
+//@   ensures visible: result
+//@ func (*BroadcastPrecommit).RequiresWALFlush
+//@   props C13
+//@   inline
+//@   ensures visible: result
+//@ func (*Commit).RequiresWALFlush
+//@   props C13
+//@   inline
+//@   ensures visible: result
+//@ func (*WriteWAL).RequiresWALFlush
+//@   props C13
+//@   inline
+//@   ensures internal: !result
+//@ func (*ScheduleTimeout).RequiresWALFlush
+//@   props C13
+//@   inline
+//@   ensures internal: !result
+//@ func (*TriggerSync).RequiresWALFlush
+//@   props C13
+//@   inline
+//@   ensures internal: !result
